@@ -114,6 +114,22 @@ def run_unit(unit, snapshot, workdir, timeout=600):
                 res["status"] = "undecided"
                 res["reason"] = "trusted-token scan: %d x %s, declared %d" % (c, t, declared.get(t, 0))
                 return res
+    # std calls that Verus accepts without a (useful) specification and that no shim rewrite replaced: a proof that
+    # fails in such a function is undecided, not a violation (the driver applies this)
+    res["unspecified_calls"] = {}
+    UNSPEC = re.compile(r"\.(extend|copy_from_slice|splice|resize|to_vec|fill|rotate_left|rotate_right|reverse|sort\w*|swap|append|split_off|dedup|extend_from_within)\s*\(")
+    for it in g.items:
+        if it.get("kind") == "impl":
+            continue
+        found = set()
+        for ln in lines[it["gen_lo"] - 1:it["gen_hi"]]:
+            code = ln.split("//")[0]
+            if "shim_" in code:
+                continue
+            for m in UNSPEC.finditer(code):
+                found.add(m.group(1))
+        if found:
+            res["unspecified_calls"][it["name"]] = sorted(found)
     # obligation table
     default_props = unit.get("properties", [])
     safety_props = unit.get("safety_properties", default_props)
